@@ -1,6 +1,7 @@
 import TddaVerif.Drv.Util
 import TddaVerif.Model.RefTestCase
-open Lean TddaVerif.Drv TddaVerif.Py TddaVerif.RefTestCase
+import TddaVerif.Model.RefPytest
+open Lean TddaVerif.Drv TddaVerif.Py TddaVerif.RefTestCase TddaVerif.RefPytest
 
 namespace TddaVerif.Drv.C19
 
@@ -21,6 +22,19 @@ def handle (op : String) (j : Json) : Option (R Json) :=
       | .ok p => pure (Json.mkObj [
           ("argv", ofList ofChars p.argv), ("tagged", Json.bool p.tagged), ("check", Json.bool p.check),
           ("quiet", Json.bool p.quiet), ("regen", ofList (ofOpt ofChars) p.regen)])
+  | "c19.pytest_filter" => some do
+      let items ← asList (fun it => do
+          pure ({ name := ← asChars (← fld it "name"), cls := ← asOpt asChars (fldD it "cls" Json.null),
+                  clsTagged := ← asBool (← fld it "cls_tagged"), fnTagged := ← asBool (← fld it "fn_tagged") } : Item))
+        (← fld j "items")
+      let r := filterItems (← asBool (← fld j "run")) (← asBool (← fld j "show")) items
+      pure (Json.mkObj [("kept", ofList (fun (i : Item) => ofChars i.name) r.1), ("printed", ofList ofChars r.2)])
+  | "c10.pytest_ref" => some do
+      let write ← asOpt (asList asChars) (fldD j "write" Json.null)
+      let t := refTable (← asBool (← fld j "write_all")) write
+      let kinds ← asList asChars (← fld j "kinds")
+      pure (Json.mkObj [("regen", ofList (fun k => Json.bool (shouldRegenerate t (some k))) kinds),
+                        ("unnamed", Json.bool (shouldRegenerate t none))])
   | "c19.select" => some do
       let cs ← asList parseClass (← fld j "classes")
       let tagged ← asBool (← fld j "tagged")
